@@ -41,7 +41,8 @@ CONSTANTS
   ReservePinnedNested,  \* TRUE: the intended design (every pinned name is reserved);
                         \* FALSE: as implemented (ComputeReservedNames looks at module scopes and eval scopes only)
   MinSeq,       \* the minifier's name sequence (abstract: the real one is shuffled by character frequency)
-  ExportCases,  \* TRUE: print a CASE record for every complete tree
+  ExportCases,  \* TRUE: print a CASE record for every complete tree ...
+  ExportOnlyFailing, \* ... but only for trees on which a renamer of the model fails (counterexamples to replay)
   Sample,       \* 0: every candidate is tried (enumeration); k > 0: at every step only k random
                 \* candidates per choice are tried (cheap random walks with -simulate)
   Planned       \* TRUE: the sizes of the tree are chosen first (balanced sampling with -simulate);
@@ -452,5 +453,7 @@ Record ==
     coinc  |-> Coincidences,
     failNum |-> Failing(NumNames), failMin |-> Failing(MinNames) ]
 
-Export == (Done /\ ExportCases) => PrintT(<<"CASE", ToJson(Record)>>)
+Export ==
+  (Done /\ ExportCases /\ (ExportOnlyFailing => (Failing(NumNames) \cup Failing(MinNames)) # {}))
+     => PrintT(<<"CASE", ToJson(Record)>>)
 =============================================================================
